@@ -63,6 +63,10 @@ type Case struct {
 	// finding and by the files under replays/C03/known/). When false they are counted
 	// as Excluded so that search continues behind them.
 	Strict bool `json:",omitempty"`
+	// Noise[i] is written before line i of the program handed to Arch.Assembler (the per-line results are
+	// not affected): "" nothing, otherwise a comment line (# ...) or an empty / blank line. Noise[len(Lines)]
+	// follows the last line.
+	Noise []string `json:",omitempty"`
 }
 
 // ---------------------------------------------------------------------------
